@@ -255,6 +255,13 @@ def gen_case(ch: Chooser, excl=()):
     options = {"project": "P", "src_dir": "./src", "output_dir": "./doc", "page_dir": "./pages", "preprocess": False,
                "parallel": 0, "search": False, "display": ["public", "protected"], "proc_internals": ch.bool(),
                "extra_filetypes": "sh #"}
+    if "incl_src_off" not in excl and ch.bool(1, 4):
+        # no pages are written for source files: a reference to a file has nothing to link to
+        options["incl_src"] = False
+        for r in refs:
+            if r["targets"] and all(ENTITIES.get(t) == "file" for t in r["targets"]):
+                r["targets"] = []
+                r["flags"] = sorted(set(r["flags"]) | {"file-without-page"})
     files["project.md"] = site.project_file(options, "\n".join(docs.get("PROJECT", [])) + "\n")
     nt = any(("multi-level" in r["flags"] or "qualified" in r["flags"]) for r in refs)
     return {"files": files, "options": options, "refs": refs, "classes": sorted(feats), "nontrivial": nt}
